@@ -11,6 +11,14 @@ from . import terms as T
 from .values import *  # noqa
 
 
+class VOpaqueZipStar(Value):
+    """zip(*rows): the transposed columns of a list of equal-length tuples (lazy)"""
+    kind = 'zipstar'
+
+    def __init__(self, rows):
+        self.rows = rows
+
+
 class PyRaise(Exception):
     """a Python exception raised by the interpreted code"""
 
@@ -1161,6 +1169,10 @@ class Interp:
             return VStr(None)
         if isinstance(e.func, ast.Name) and e.func.id == 'super' and not e.args:
             return VMethod(env.lookup('self') if env.has('self') else NONE, '<super>:' + frame.qualname)
+        if isinstance(e.func, ast.Name) and e.func.id == 'zip' and len(e.args) == 1 \
+                and isinstance(e.args[0], ast.Starred) and not env.has('zip'):
+            seq = self.world.as_sequence(self, self.eval(e.args[0].value, env, frame))
+            return VOpaqueZipStar(seq)
         fn = self.eval(e.func, env, frame)
         args = []
         for a in e.args:
